@@ -13,7 +13,7 @@ RULE = ('cases = 4 base models (pair with custom and table forms; EAM; Finnis-Si
         'a custom form or like a built-in form; a formula named like a table form; a repeated section) x position of the duplicate '
         '{directly after, end of section, start of section}, the duplicate carrying a DIFFERENT definition; through '
         'Configuration.read and potable; plus the un-duplicated controls, whose tabulated functions must follow their single definition')
-RULE += '; further models: ADP sections, labels differing only in case (CA-Ca / Ca-CA), a second table form sorting between blank-variants, a table form with capitals; Unicode blanks in keys; the same new item added twice through additional= / --add-item; a repeated section header with blanks inside the brackets; every case also through a species filter that keeps all species'
+RULE += '; further models: ADP sections, labels differing only in case (CA-Ca / Ca-CA), a second table form sorting between blank-variants, a table form with capitals; Unicode blanks in keys; the same new item added twice through additional= / --add-item; a repeated section header with blanks inside the brackets; every case also through a species filter that keeps all species; a table form defined twice with BOTH headers spelt with blanks (25 ordered pairs of spellings); items added twice to a section the file does not have yet (custom form, table form, ADP, embedding, density)'
 ASSUMPTIONS = [
     'a duplicate is "rejected" when Configuration().read raises a ConfigurationException subclass and potable reports "configuration error" (exit 2) and writes no non-empty table',
     'pymath.* names are not in the statement list (pair, density, embedding, custom form, table form); ADP dipole / quadrupole entries are treated as pair interactions',
@@ -115,6 +115,14 @@ def cases(tier):
                     d = ini.copy()
                     d.sections.append([header, [['x', '0 1 2 3'], ['y', '9 9 9 9']]])
                     out.append(dict(model=mname, op=opname, pos='end', sep=':', sections=d.to_json(), dup=[header, ''], orig=[sname, '']))
+                # BOTH headers written with blanks: every ordered pair of six spellings of one table-form header
+                spell = ['Table-Form:%s', 'Table-Form: %s', 'Table-Form:%s ', 'Table-Form :%s', 'Table-Form\t:%s', 'Table-Form : %s']
+                for h1 in spell[1:]:
+                    for h2 in spell[1:]:
+                        d = ini.copy()
+                        d.sections[si][0] = h1 % name
+                        d.sections.append([h2 % name, [['x', '0 1 2 3'], ['y', '9 9 9 9']]])
+                        out.append(dict(model=mname, op='table:both-spelt-with-blanks', pos='end', sep=':', sections=d.to_json(), dup=[h2 % name, ''], orig=[h1 % name, '']))
                 # a formula named like the table form, and a table form named like a custom / built-in form
                 d = ini.copy()
                 d.section('Potential-Form')[1].append(['%s(r)' % name, '42.0 + r'])
@@ -133,9 +141,14 @@ def cases(tier):
         # the same new item added twice through `additional=` / --add-item (identical and whitespace-variant keys)
         for sname, k1, k2 in (('Pair', 'Zz-Zz', 'Zz-Zz'), ('Pair', 'Zz-Zz', 'Zz - Zz'), ('EAM-Embed', 'Zz', 'Zz'), ('EAM-Density', 'Zz', 'Zz'),
                               ('Potential-Form', 'zz(r,A)', 'zz(r, A)'), ('Potential-Form', 'zz(r,A)', 'zz(r,A)')):
-            if ini.section(sname):
-                out.append(dict(model=mname, op='added-twice:%s' % sname, pos='end', sep=':', sections=ini.to_json(), dup=[sname, k2], orig=[sname, k1],
-                                additional=[[sname, k1, ALT[sname] if sname != 'Potential-Form' else 'A*r'], [sname, k2, 'as.zero' if sname != 'Potential-Form' else '2*A*r']]))
+            # (also when the file has no such section yet: the first addition creates it, the second one defines the item again)
+            out.append(dict(model=mname, op='added-twice%s:%s' % ('' if ini.section(sname) else '-new-section', sname), pos='end', sep=':', sections=ini.to_json(), dup=[sname, k2], orig=[sname, k1],
+                            additional=[[sname, k1, ALT[sname] if sname != 'Potential-Form' else 'A*r'], [sname, k2, 'as.zero' if sname != 'Potential-Form' else '2*A*r']]))
+        for sname, k1, k2, v1, v2 in (('Table-Form:zz', 'xy', 'xy', '0 1 1 2 2 3 3 4', '0 4 1 3 2 2 3 1'), ('Table-Form:zz', 'xy', 'x y', '0 1 1 2 2 3 3 4', '0 4 1 3 2 2 3 1'),
+                                      ('EAM-ADP-Dipole', 'Zz-Zz', 'Zz - Zz', ALT['EAM-ADP-Dipole'], 'as.zero'), ('EAM-ADP-Quadrupole', 'Zz-Yy', 'Zz -Yy', ALT['EAM-ADP-Quadrupole'], 'as.zero')):
+            if not ini.section(sname):
+                out.append(dict(model=mname, op='added-twice-new-section:%s' % sname.split(':')[0], pos='end', sep=':', sections=ini.to_json(), dup=[sname, k2], orig=[sname, k1],
+                                additional=[[sname, k1, v1], [sname, k2, v2]]))
         # a section name that differs from an existing one only by blanks, supplied through --add-item
         for sname in ('Pair', 'EAM-Embed'):
             if ini.section(sname):
